@@ -954,7 +954,7 @@ Qed.
 (* D9 (DESIGN.md section 7): the decoder of the pinned tree does not compare the length of the
    inner list header of NODES with the remaining payload.  04 ‖ list[01, 01, c0 (the empty list),
    <record>] is accepted as Nodes{total 1, [record]} and does not re-encode to itself. *)
-Lemma nodes_inner_list_exact_refuted_toy :
+Lemma nodes_inner_list_exact_refuted :
   exists bs m, bytes_ok bs /\
     decode_msg bool toy_encode toy_decode false bs = Ok m /\ encode_msg bool toy_encode m <> bs.
 Proof.
